@@ -84,6 +84,27 @@ def catalog():
     s.scalar("tail", 4, 3, order="BE")
     ps.append(p)
 
+    # P8: text output attributes, dependency order differing from source order, enum names, arrays, nested struct
+    p = Program("Texty")
+    p.enum("Kind", [("AA", 0), ("BB", 1), ("CC", 200)])
+    inn = p.struct("TIn")
+    inn.scalar("v", 0, 1)
+    inn.scalar("sg", 1, 1, st="Int")
+    s = p.struct("Tx")
+    s.scalar("late", R("n"), 1)
+    s.scalar("n", 0, 1, requires=Op("&&", Op(">=", THIS, 1), Op("<=", THIS, 3)))
+    s.scalar("kind", 4, 1, enum="Kind")
+    s.scalar("a", 5, 2, cond=Op("==", "n", 3), order="BE")
+    s.virt("twice", Op("*", "n", 2))
+    s.alias("al", "kind")
+    s.anon_bits(7, 1, lambda b: (b.scalar("lo", 0, 3), b.scalar("hi", 3, 4, st="Int"), b.scalar("fl", 7, 1, st="Flag")))
+    s.array("arr", 8, 2, ("UInt",), 1)
+    s.sub("inn", 10, 2, "TIn")
+    s.scalar("sk", 12, 1, text_output="Skip")
+    s.scalar("em", 13, 1, text_output="Emit")
+    s.scalar("big", 14, 3)
+    ps.append(p)
+
     # P7: gaps (bytes no field covers), overlapping fields (union), conditional tail, fixed padding
     p = Program("Gaps")
     s = p.struct("Gp")
